@@ -87,6 +87,31 @@ let show_agw_frame f =
   String.concat ":" [string_of_int (int_of_n f.f_port); string_of_int (int_of_n f.f_kind); string_of_int (int_of_n f.f_pid);
                      hex_of_bytes f.f_from; hex_of_bytes f.f_to; string_of_int (int_of_n f.f_datalen); hex_of_bytes f.f_data]
 
+(* decimal rendering of Z without going through OCaml int (values up to 2^63) *)
+let rec dec_double carry = function
+  | [] -> if carry = 0 then [] else [carry]
+  | d :: r -> let v = 2 * d + carry in (v mod 10) :: dec_double (v / 10) r
+let rec dec_of_pos = function
+  | XH -> [1]
+  | XO p -> dec_double 0 (dec_of_pos p)
+  | XI p -> dec_double 1 (dec_of_pos p)
+let string_of_pos p = String.concat "" (List.rev_map string_of_int (dec_of_pos p))
+let string_of_z = function Z0 -> "0" | Zpos p -> string_of_pos p | Zneg p -> "-" ^ string_of_pos p
+let show_cval = function
+  | VNone -> "none"
+  | VBool b -> out_bool b
+  | VState n -> "s" ^ string_of_int (int_of_n n)
+  | VStr s -> out_bytes s
+  | VList l -> out_list out_bytes l
+  | VInt z -> "i" ^ string_of_z z
+let show_ardop_item = function
+  | Inl (AFCmd s) -> "c:" ^ hex_of_bytes s
+  | Inl (AFData (typ, p)) -> "d:" ^ hex_of_bytes typ ^ ":" ^ hex_of_bytes p
+  | Inr AEEOF -> "e:eof"
+  | Inr (AEType ty) -> "e:type" ^ string_of_int (int_of_n ty)
+  | Inr AEShortData -> "e:short"
+  | Inr AEChecksum -> "e:crc"
+
 (* ---------- operations ---------- *)
 let dispatch (op : string) (t : toks) : string =
   match op with
@@ -299,6 +324,29 @@ let dispatch (op : string) (t : toks) : string =
       let call = get_option t get_bytes in let to_ = get_option t get_bytes in
       let f = get_agw_frame t in
       out_bool (want { fl_kinds = kinds; fl_port = port; fl_call = call; fl_to = to_ } f)
+  | "ardcrc" -> out_int (int_of_n (ardop_crc16 (get_bytes t)))
+  | "ardhostcmd" -> let tcp = get_bool t in out_bytes (host_cmd tcp (get_bytes t))
+  | "ardwrite" ->
+      let tcp = get_bool t in let p = get_bytes t in
+      let (f, n) = ardop_write tcp p in
+      out_bytes f ^ " " ^ out_int (int_of_nat n) ^ " " ^ out_option out_bytes (tnc_parse_data tcp f)
+  | "arddecode" ->
+      let ft = n_of_int (get_int t) in let tcp = get_bool t in let s = get_bytes t in
+      String.concat " " (List.map show_ardop_item (ardop_decode ft tcp s))
+  | "ardparse" ->
+      (match parse_ctrl (get_bytes t) with
+       | None -> "panic"
+       | Some (cmd, v) -> out_bytes cmd ^ " " ^ show_cval v)
+  | "ardctrl" ->
+      let connected = get_bool t in let s = get_bytes t in
+      let frames = List.filter_map (function Inl f -> Some f | Inr _ -> None) (ardop_decode (n_of_int 42) false s) in
+      let c = ctrl_run (cs_init connected) frames in
+      "concat:" ^ hex_of_bytes (List.concat c.cs_queue) ^ " " ^ out_list out_bool c.cs_ptt
+  | "ardtry" ->
+      let resps = List.map (fun t -> match t with "B" -> ARBuffer | "C" -> ARCrcFault | _ -> AREof) (get_list t next) in
+      let (sent, res) = write_try (nat_of_int 3) [n_of_int 1] (nat_of_int 5) resps in
+      string_of_int (List.length sent) ^ " " ^
+        (match res with AWOk n -> "ok" ^ string_of_int (int_of_nat n) | AWCrcFail -> "crcfail" | AWEOF n -> "eof" ^ string_of_int (int_of_nat n) | AWBlocked -> "blocked")
   | "agwreads" ->
       let frames = get_list t get_bytes in let sizes = List.map nat_of_int (get_list t get_int) in
       out_list out_bytes (conn_reads [] frames sizes)
